@@ -44,6 +44,7 @@ class MRel:
     sort_cols: frozenset | None = None  # columns used by the sort that defines the order
     sort_visible: bool = True  # those columns are all still present
     engine: str | None = None  # engine the relation lives in (None if unknown)
+    fd_ok: bool = True  # here and everywhere upstream, non-key columns depend on the key columns present
 
 
 def allsame(rows) -> bool:
@@ -126,6 +127,11 @@ class Model:
         res = self._eval(prog)
         if not res.det and allsame(res.rows):
             res.det = True
+        if self.key_dedup and prog[0] != "dedup":
+            # the documented contract of ColumnTag.is_key must hold wherever the library may
+            # legitimately place a (key-only) deduplication, i.e. at every relation upstream of it
+            kids = [prog[1], prog[2]] if prog[0] in ("chain", "join") else ([prog[1]] if prog[0] != "leaf" else [])
+            res.fd_ok = all(self.memo[repr(k)].fd_ok for k in kids) and fd_holds(res.rows, res.cols)
         self.memo[key] = res
         self.node_results.append((prog, res))
         return res
@@ -190,7 +196,7 @@ class Model:
                 raise ModelError("selection columns missing")
             return dataclasses.replace(t, rows=[r for r in t.rows if pv(p, r)])
         if op == "dedup":
-            if self.key_dedup and not fd_holds(t.rows, t.cols):
+            if self.key_dedup and not (t.fd_ok and fd_holds(t.rows, t.cols)):
                 raise Skip("fd_precondition")
             if self.strict_fragile and t.det and not t.sort_visible and len(m_dedup(t.rows)) != len(t.rows):
                 # DISTINCT over a projection that dropped the ORDER BY key: which duplicate
